@@ -176,3 +176,28 @@ Section LevelsNd.
   Fixpoint run_levels_nd (n : nat) (g : grid) : cstate_nd :=
     match n with O => init_state_nd g | S m => next_level_nd (run_levels_nd m g) end.
 End LevelsNd.
+
+(* ---- the REPAIRED rule as a function of the coupling uniform (what C03_telescoping_nd_joint is about): as coupling_state2, with the
+   corner probabilities of ONE odd axis taken from the JOINT mass of (half cell of the odd axis) x (cell of the even axis) *)
+Section NdJoint.
+  Variable mid : Q -> Q -> Q.
+  Variable mass2 : Q * Q -> Q * Q -> Q.
+  Variable marg : nat -> Q -> Q -> Q.
+  Definition coupling_state2_joint (xs ys : list Q) (o : nat) (i1 i2 : Z) (u : Q) : option (Q * Q) :=
+    let p1 := Z.to_nat (Z.of_nat o + i1) in let p2 := Z.to_nat (Z.of_nat o + i2) in
+    match Z.eqb (i1 mod 2) 0, Z.eqb (i2 mod 2) 0 with
+    | false, true =>
+        match corner1_joint mid mass2 0 xs ys p1 p2 with
+        | None => None
+        | Some (pl, pr) => if Qle_bool u (0 + pl) then Some (nthq xs (p1 - 1), nthq ys p2)
+                           else if Qle_bool u (0 + pl + pr) then Some (nthq xs (p1 + 1), nthq ys p2) else None
+        end
+    | true, false =>
+        match corner1_joint mid mass2 1 xs ys p1 p2 with
+        | None => None
+        | Some (pl, pr) => if Qle_bool u (0 + pl) then Some (nthq xs p1, nthq ys (p2 - 1))
+                           else if Qle_bool u (0 + pl + pr) then Some (nthq xs p1, nthq ys (p2 + 1)) else None
+        end
+    | _, _ => coupling_state2 mid mass2 marg xs ys o i1 i2 u
+    end.
+End NdJoint.
